@@ -249,7 +249,7 @@ func (C19) Generate(c *Ctx, r *Rand, index int) *Scenario {
 		sc.Meta["keep_flags"] = []any{"ea"}
 	case "malformed":
 		// a record that an independent reader of the format rejects, at some position of some file
-		format = Pick(rs, []string{"csv", "tsv", "json", "toml", "lua"})
+		format = Pick(rs, []string{"csv", "tsv", "json", "toml", "lua", "xml", "xml"})
 		nf := rs.Range(1, 3)
 		bad := rs.Intn(nf)
 		ext := FormatByName(format).Ext
@@ -286,6 +286,8 @@ func (C19) Generate(c *Ctx, r *Rand, index int) *Scenario {
 		sc.Files = []File{{Name: "f1.yaml", Docs: []string{g.Doc(DocID(r, 0, 0)).YAML()}, Mode: 0644}}
 		combo := Pick(rs, [][2]string{
 			{"-o=csv", "."}, {"-o=csv", ".c"}, {"-o=csv", "[.]"}, {"-o=tsv", "."}, {"-o=tsv", "[.]"}, {"-o=xml", ".d"}, {"-o=xml", ".e"},
+			{"-o=csv", "[{\"k\": 1}, {\"k\": {\"n\": 2}}]"}, {"-o=csv", "[{\"k\": 1}, {\"k\": [1]}]"}, {"-o=tsv", "[{\"k\": 1}, {\"k\": {\"n\": 2}}]"}, {"-o=csv", "[[1], [{\"a\": 1}]]"}, {"-o=csv", ".e + [{\"k\": .c}]"},
+			{"-o=csv", "[[1, 2], [3, [4]]]"}, {"-o=xml", "[1, 2]"}, {"-o=base64", ".c"}, {"-o=uri", ".c"},
 			{"-o=toml", "."}, {"-o=toml", ".d"}, {"-o=toml", ".c"}, {"-o=base64", "."}, {"-o=base64", ".d"}, {"-o=base64", ".a"}, {"-o=uri", "."}, {"-o=uri", ".d"},
 		})
 		evalAll = rs.Chance(1, 4)
